@@ -10,10 +10,10 @@ from fractions import Fraction
 from vk import env as _env  # noqa: F401
 from vk.core import rng_for, simple_plan, h
 from vk.gen.temporal import gen_problem_fixed as gen_problem
-from vk.recipe import instantiate_problem, sequential_plan
+from vk.recipe import instantiate_problem
 from vk.ref import seqsem
 from vk.ref.evalx import Unsupported
-from vk.ref.seqsem import OKAY, INAPP, DONTCARE
+from vk.ref.seqsem import OKAY, INAPP
 from vk.checks.c05 import lib_site
 
 PROPERTY = "C04"
@@ -42,7 +42,7 @@ ASSUMPTIONS = [
     "start times are strictly increasing rationals; the shuffled variant lists the same (time, instance) pairs in another order",
 ]
 SHARD_TIMEOUT = {"quick": 600, "thorough": 5400}
-BOUNDS = {"quick": dict(n=500, L=3, plans=10, max_inst=14), "thorough": dict(n=5000, L=4, plans=24, max_inst=20)}
+BOUNDS = {"quick": dict(n=800, L=3, plans=10, max_inst=14), "thorough": dict(n=12000, L=4, plans=24, max_inst=20)}
 PROFILE = dict(invariants=0.4, undefined_init=0.08, interpreted_functions=0.0, max_depth=1)
 
 
@@ -83,7 +83,7 @@ def candidate_plans(pb, rng, b):
         elif gs is False:
             out["cold"].append((path, "ref-goal-unsatisfied", False))
         else:
-            out["cold"].append((path, "ref-dontcare:goal", False))
+            out["cold"].append((path, "ref-dontcare:goal reads an undefined fluent but is true under every completion", False))
         if len(path) >= b["L"]:
             continue
         order = list(insts)
